@@ -31,12 +31,12 @@ if os.path.exists(res):
         for i, n in notes:
             out.append("* `%s`: %s" % (i, n))
         out.append("")
-out.append("3. **Independently seeded changes** (`seeded/<id>/`: `patch.diff`, demonstration test, `meta.json`). Two rounds of twenty sub-agents each; every agent got only the text of one property "
+out.append("3. **Independently seeded changes** (`seeded/<id>/`: `patch.diff`, demonstration test, `meta.json`). Three rounds of twenty sub-agents each (two changes per agent, 120 changes); every agent got only the text of one property "
            "and a private scratch worktree, and was asked for two changes that compile, pass the repository's unedited suite and break the property only under something specific "
-           "(round 1: any such change; round 2: a prescribed hard kind - multi-step history, fault at one point, interleaving, cooperating edits, unusual boundary, stale/shared state). "
+           "(round 1: any such change; round 2: a prescribed hard kind - multi-step history, fault at one point, interleaving, cooperating edits, unusual boundary, stale/shared state; round 3: the same kinds, and the agent was told in general terms to assume a competent property-based suite - many small random inputs, reference and model oracles, single faults everywhere, short histories - and to aim at what such a suite still misses; still nothing from /verif). "
            "Each change was kept only after `tools/seedcheck.sh <dir> --suite` confirmed in a scratch worktree that it builds, that the suite passes with it, and that its demonstration fails with it and passes without it. "
            "The tables give, per change, the checks (quick tier, seed 1) that report a violation when pointed at the changed tree - the property's own check first - and whether the change was missed when first tried.\n")
-for rnd, title in (("1", "Round 1"), ("2", "Round 2 (hard kinds)")):
+for rnd, title in (("1", "Round 1"), ("2", "Round 2 (hard kinds)"), ("3", "Round 3 (hard kinds, aimed at the harness's blind spots)")):
     mfile = os.path.join(V, "seeded/matrix_round%s.txt" % rnd)
     matrix = {}
     if os.path.exists(mfile):
@@ -74,7 +74,7 @@ for rnd, title in (("1", "Round 1"), ("2", "Round 2 (hard kinds)")):
         out.append("| %s | %s | %s | %s | %s |" % (m["id"], m.get("kind", ""), summ, " ".join(caught), first.replace("|", "/")))
     out.append("")
 out.append("Misses were never silenced: each one led to a stronger generator or oracle (listed in the last column and in the *As built* notes of section 6), "
-           "and one of them (C06a) led to the discovery of a further genuine defect, F12. A change is counted as caught only if the property's own check reports it.\n")
+           "and three of them led to further genuine findings: C06a to defect F12, C05f to defect F13 (both repaired), C13e to the known finding C13-shared-subtree-iteration. A change is counted as caught only if the property's own check reports it.\n")
 text = "\n".join(out) + "\n"
 p = os.path.join(V, "DESIGN.md")
 s = open(p).read()
